@@ -98,7 +98,7 @@ def _sibling_prelude(case):
     the input).  The sibling's own answers are not part of the trace."""
     n = case["n"] + 2
     sib = {"n": n, "pairs": case["pairs"],
-           "seq": [ss.LETTERS[(ss.LETTERS.index(x) + 1) % 4] for x in case["seq"]] + ["G", "A"]}
+           "seq": [ss.LETTERS[(ss.LETTERS.index(x) + 1) % 4] if x in ss.LETTERS else "G" for x in case["seq"]] + ["G", "A"]}
     b = ss._bpseq(sib)
     for op in ("dot_bracket", "fcfs", "elements", "all", "without_pseudoknots", "without_isolated", "str"):
         try:
